@@ -30,7 +30,7 @@ Definition w_tr (c p : nat) : Z :=
   match c, p with
   | 0, 3 => 1%Z
   | 3, (3|6) => 1%Z
-  | 2, (10|11|14) => 1%Z       (* 14: the feeder's thread has ended, the token is gone with it *)
+  | 2, (10|11|14) => 1%Z       (* 14: about to give back the token of the object it could not serialise *)
   | 1, (4|5|24) => 1%Z
   | _, _ => 0%Z
   end.
@@ -70,7 +70,8 @@ Definition qt_rl (t : qthread) : Z := if qfin t then 0 else w_rl (qcid t) (qpc t
 Definition qt_wl (t : qthread) : Z := if qfin t then 0 else w_wl (qcid t) (qpc t).
 Definition qt_nl (p : nat) (t : qthread) : Z :=
   if qfin t then 0 else if Nat.eqb (qproc t) p then w_nl (qcid t) (qpc t) else 0.
-(* the message a feeder has popped and not yet sent (pc 14: and never will: its thread has ended) *)
+(* the message a feeder has popped and not yet sent (pc 14: and will not send: it could not be
+   serialised and is dropped) *)
 Definition ftr (t : qthread) : list Z :=
   if qfin t then [] else
   match qcid t, qpc t with
@@ -124,8 +125,9 @@ Definition qli_pc (c p : nat) (r : regs) (a2 : Z) (h4 : Z) : Prop :=
   match c, p with
   | 0, (0|3|10|11) => r2 r = a2
   | 1, (2|3|4|5|8|12|14|16|19|21|23|24|25) => True
-  | 2, (0|3|4|5|7|10|11|12) => True
-  | 2, 14 => picklable (r2 r) = false       (* a feeder's thread ends only over a message it cannot serialise *)
+  | 2, (0|3|4|5|7|12) => True
+  | 2, (10|11) => picklable (r2 r) = true   (* what a feeder is about to write could be serialised *)
+  | 2, 14 => picklable (r2 r) = false       (* what a feeder drops could not *)
   | 3, (0|3|6) => r2 r = a2
   | 3, (9|12|13) => (1 <= h4)%Z
   | 3, 14 => True
@@ -151,6 +153,14 @@ Definition blen (ps : pstate) : Z := Z.of_nat (length (buf ps)).
 (* the messages of a tagged send log that were written by the feeder of process p, in order *)
 Definition from_proc (p : nat) (l : list (nat * Z)) : list Z :=
   map snd (filter (fun x => Nat.eqb (fst x) p) l).
+(* the messages of a list that can be serialised, in order *)
+Definition pk (l : list Z) : list Z := filter picklable l.
+Lemma pk_nil : pk [] = []. Proof. reflexivity. Qed.
+Lemma pk_app : forall a b, pk (a ++ b) = pk a ++ pk b. Proof. intros. apply filter_app. Qed.
+Lemma pk_cons_true : forall m l, picklable m = true -> pk (m :: l) = m :: pk l.
+Proof. intros m l H. unfold pk. cbn [filter]. rewrite H. reflexivity. Qed.
+Lemma pk_cons_false : forall m l, picklable m = false -> pk (m :: l) = pk l.
+Proof. intros m l H. unfold pk. cbn [filter]. rewrite H. reflexivity. Qed.
 Definition dqt : qthread := mkQT 0 false (0%nat, 0, 0, 0) 0 (qinit_regs 0 0 0) [] [] [] true.
 
 Definition qshape (M : Z) (n : nat) (ss : list sem) : Prop :=
@@ -172,8 +182,8 @@ Record QInv (M : Z) (g : qsys) : Prop := mkQInv {
   q_wl : qv 2 g + sumz qt_wl (qthr g) = 1 /\ 0 <= qv 2 g;
   q_nl : forall p, (p < length (procs g))%nat ->
                    qv (nls p) g + sumz (qt_nl p) (qthr g) = 1 /\ 0 <= qv (nls p) g;
-  q_fifo : forall p, plog (nth p (procs g) dps) =
-                     slog (nth p (procs g) dps) ++ ftr (nth (2 * p + 1) (qthr g) dqt) ++ buf (nth p (procs g) dps);
+  q_fifo : forall p, pk (plog (nth p (procs g) dps)) =
+                     slog (nth p (procs g) dps) ++ pk (ftr (nth (2 * p + 1) (qthr g) dqt)) ++ pk (buf (nth p (procs g) dps));
   q_pipe : map snd (sendlog g) = getlog g ++ pipe g;
   q_merge : forall m, zcnt m (map snd (sendlog g)) = sumz (fun ps => zcnt m (slog ps)) (procs g);
   q_order : forall p, from_proc p (sendlog g) = slog (nth p (procs g) dps);
@@ -307,7 +317,7 @@ Lemma qinv_upd : forall M g i t t' ps' ss' pp sl gl,
        + (sumz (qt_nl (qproc t)) (qthr g) - qt_nl (qproc t) t + qt_nl (qproc t) t') = 1
      /\ 0 <= val (nth (nls (qproc t)) ss' dsem)) ->
     (forall q, q <> qproc t -> nth (nls q) ss' dsem = nth (nls q) (qsems g) dsem) ->
-    plog ps' = slog ps' ++ ftr (if Nat.odd i then t' else nth (2 * qproc t + 1) (qthr g) dqt) ++ buf ps' ->
+    pk (plog ps') = slog ps' ++ pk (ftr (if Nat.odd i then t' else nth (2 * qproc t + 1) (qthr g) dqt)) ++ pk (buf ps') ->
     map snd sl = gl ++ pp ->
     (forall m, zcnt m (map snd sl) = sumz (fun ps => zcnt m (slog ps)) (procs g)
                            - zcnt m (slog (nth (qproc t) (procs g) dps)) + zcnt m (slog ps')) ->
@@ -433,7 +443,12 @@ Ltac qprem HI Wf Eps Imerge Hh4 Ififo Ipipe Iorder Iret :=
         unfold QLI; qgoalw; cbn [qli_pc]; rewrite ?nth_updz_same, ?nth_updz_other by qside;
         repeat split; auto; try lia; try discriminate; try (unfold okq; cbn [fst snd]; lia) end
     | (rewrite ?blen_mk in *; cbn [length] in *; rewrite ?app_length; cbn [length]; lia)
-    | (rewrite ?map_app, ?Ififo, ?Ipipe, <- ?app_assoc; cbn [app map snd]; reflexivity)
+    | (try (match goal with E : picklable ?m = true |- _ =>
+              rewrite ?(pk_cons_true m _ E) in Ififo; rewrite ?(pk_cons_true m _ E) end);
+       try (match goal with E : picklable ?m = false |- _ =>
+              rewrite ?(pk_cons_false m _ E) in Ififo; rewrite ?(pk_cons_false m _ E) end);
+       rewrite ?pk_nil in Ififo; rewrite ?pk_nil; rewrite ?pk_app, ?Ififo, <- ?app_assoc; cbn [app]; reflexivity)
+    | (rewrite ?map_app, ?Ipipe, <- ?app_assoc; cbn [app map snd]; reflexivity)
     | idtac ].
 
 Ltac qabstract_thread :=
@@ -507,7 +522,7 @@ Proof.
   - (* feeder *)
     destruct Hli as (_ & Hc & Hsc & Hpc). unfold qcid in Hc; cbn [qcur fst] in Hc. subst c sc.
     rewrite <- Hidx, Hnth in Ififo.
-    dn pc 15%nat; cbn [qli_pc] in Hpc; try contradiction.
+    dn pc 16%nat; cbn [qli_pc] in Hpc; try contradiction.
     all: qsimpw; rewrite ?Nat.eqb_refl in *.
     all: qsimp_in H;
       unfold sem_acq, sem_rel in H;
@@ -640,7 +655,7 @@ Proof.
   - rewrite V1, (sumz_zero _ qt_rl) by (intros t Ht; apply (Hland t Ht)). lia.
   - rewrite V2, (sumz_zero _ qt_wl) by (intros t Ht; apply (Hland t Ht)). lia.
   - intros p Hp. rewrite (VP p Hp), (sumz_zero _ (qt_nl p)) by (intros t Ht; apply (Hland t Ht)). lia.
-  - intros p. rewrite nth_repeat_dps. cbn [plog slog buf dps].
+  - intros p. rewrite nth_repeat_dps. cbn [plog slog buf dps]. rewrite pk_nil.
     destruct (nth_error ts (2 * p + 1)) as [t|] eqn:E.
     + rewrite (nth_error_nth _ _ dqt E). destruct (Hall _ _ E) as (_ & _ & _ & (_ & _ & _ & _ & F & _) & _). rewrite F. reflexivity.
     + rewrite (nth_overflow ts dqt) by (apply nth_error_None; auto). reflexivity.
@@ -707,12 +722,12 @@ Proof.
   repeat split; lia.
 Qed.
 
-(* per producer: what it appended = what its feeder sent ++ what the feeder holds ++ its
-   buffer, IN ORDER; the pipe is FIFO; the global send log is an order-preserving merge of the
+(* per producer, restricted to the messages that can be serialised (pk): what it appended = what
+   its feeder sent ++ what the feeder holds ++ its buffer, IN ORDER; the pipe is FIFO; the global send log is an order-preserving merge of the
    producers' send logs: its entries written by p's feeder are, in order, exactly slog p *)
 Theorem queue_fifo : forall M g, QInv M g ->
-    (forall p, plog (nth p (procs g) dps) =
-               slog (nth p (procs g) dps) ++ ftr (nth (2 * p + 1) (qthr g) dqt) ++ buf (nth p (procs g) dps)) /\
+    (forall p, pk (plog (nth p (procs g) dps)) =
+               slog (nth p (procs g) dps) ++ pk (ftr (nth (2 * p + 1) (qthr g) dqt)) ++ pk (buf (nth p (procs g) dps))) /\
     map snd (sendlog g) = getlog g ++ pipe g /\
     (forall p, from_proc p (sendlog g) = slog (nth p (procs g) dps)) /\
     (forall m, zcnt m (map snd (sendlog g)) = sumz (fun ps => zcnt m (slog ps)) (procs g)).
@@ -721,19 +736,41 @@ Proof.
   split; [apply (q_order M g HI)|apply (q_merge M g HI)].
 Qed.
 
-(* no loss, no duplication: every message appended by some put is, with its multiplicity,
-   exactly once in: received, in the pipe, held by a feeder, or buffered *)
-Theorem queue_no_loss_no_dup : forall M g m, QInv M g ->
+Lemma zcnt_pk_true : forall m l, picklable m = true -> zcnt m (pk l) = zcnt m l.
+Proof.
+  intros m l H. induction l as [|x l IH]; [reflexivity|].
+  destruct (picklable x) eqn:E.
+  - rewrite (pk_cons_true x l E). cbn [zcnt]. rewrite IH. reflexivity.
+  - rewrite (pk_cons_false x l E). cbn [zcnt]. rewrite IH.
+    destruct (x =? m) eqn:Ex; [|lia]. apply Z.eqb_eq in Ex. subst x. congruence.
+Qed.
+
+Lemma zcnt_pk_false : forall m l, picklable m = false -> zcnt m (pk l) = 0.
+Proof.
+  intros m l H. induction l as [|x l IH]; [reflexivity|].
+  destruct (picklable x) eqn:E.
+  - rewrite (pk_cons_true x l E). cbn [zcnt]. rewrite IH.
+    destruct (x =? m) eqn:Ex; [|lia]. apply Z.eqb_eq in Ex. subst x. congruence.
+  - rewrite (pk_cons_false x l E). exact IH.
+Qed.
+
+Lemma zcnt_nonneg : forall m l, 0 <= zcnt m l.
+Proof. induction l as [|x l IH]; cbn [zcnt]; [lia|]. destruct (x =? m); lia. Qed.
+
+(* no loss, no duplication, for every message that can be serialised: each such message
+   appended by some put is, with its multiplicity, exactly once in: received, in the pipe, held
+   by a feeder, or buffered *)
+Theorem queue_no_loss_no_dup : forall M g m, QInv M g -> picklable m = true ->
     sumz (fun ps => zcnt m (plog ps)) (procs g) =
     zcnt m (getlog g) + zcnt m (pipe g)
     + psum (fun p => zcnt m (ftr (nth (2 * p + 1) (qthr g) dqt))) (length (procs g))
     + sumz (fun ps => zcnt m (buf ps)) (procs g).
 Proof.
-  intros M g m HI. destruct (queue_fifo M g HI) as (F1 & F2 & _ & F3).
+  intros M g m HI Hpk. destruct (queue_fifo M g HI) as (F1 & F2 & _ & F3).
   rewrite (sumz_psum (fun ps => zcnt m (plog ps))).
   rewrite (psum_ext _ (fun p => zcnt m (slog (nth p (procs g) dps))
                                + (zcnt m (ftr (nth (2 * p + 1) (qthr g) dqt)) + zcnt m (buf (nth p (procs g) dps))))).
-  2: { intros p _. rewrite (F1 p), !zcnt_app. lia. }
+  2: { intros p _. rewrite <- (zcnt_pk_true m (plog _) Hpk), (F1 p), !zcnt_app, !(zcnt_pk_true m _ Hpk). lia. }
   rewrite psum_add, psum_add.
   rewrite <- (sumz_psum (fun ps => zcnt m (slog ps))), <- (sumz_psum (fun ps => zcnt m (buf ps))).
   rewrite <- (F3 m), F2, zcnt_app. lia.
@@ -754,18 +791,47 @@ Qed.
 (* put to get: each message, with its multiplicity among the accepted puts, is exactly:
    returned by a get + held by a get about to return it + in the pipe + held by a feeder +
    buffered *)
-Theorem put_get_exact : forall M g m, QInv M g -> m <> E_EMPTY ->
+Theorem put_get_exact : forall M g m, QInv M g -> m <> E_EMPTY -> picklable m = true ->
     sumz (fun ps => zcnt m (plog ps)) (procs g) =
     sumz (fun t => rcount m (qresults t)) (qthr g) + sumz (fun t => zcnt m (gheld t)) (qthr g)
     + zcnt m (pipe g)
     + psum (fun p => zcnt m (ftr (nth (2 * p + 1) (qthr g) dqt))) (length (procs g))
     + sumz (fun ps => zcnt m (buf ps)) (procs g).
 Proof.
-  intros M g m HI Hm. rewrite (queue_no_loss_no_dup M g m HI), (get_returns_received M g m HI Hm). lia.
+  intros M g m HI Hm Hpk. rewrite (queue_no_loss_no_dup M g m HI Hpk), (get_returns_received M g m HI Hm). lia.
 Qed.
 
-(* the thread of a feeder ends only over a message that cannot be serialised *)
-Theorem feeder_ends_only_on_unpicklable : forall M g t, QInv M g -> In t (qthr g) ->
+(* the only loss: a message that cannot be serialised is never written to the pipe (it is
+   dropped by the feeder, which gives its capacity token back: see qstep_inv at (2, 14)), so it
+   is never received either *)
+Theorem unpicklable_never_sent : forall M g m, QInv M g -> picklable m = false ->
+    zcnt m (map snd (sendlog g)) = 0 /\ zcnt m (getlog g) = 0 /\ zcnt m (pipe g) = 0.
+Proof.
+  intros M g m HI Hpk. destruct (queue_fifo M g HI) as (F1 & F2 & _ & F3).
+  assert (Z0 : zcnt m (map snd (sendlog g)) = 0).
+  { rewrite (F3 m). apply sumz_zero. intros ps Hin.
+    destruct (In_nth _ _ dps Hin) as (p & _ & Ep). subst ps.
+    pose proof (f_equal (zcnt m) (F1 p)) as E. rewrite (zcnt_pk_false m _ Hpk), !zcnt_app in E.
+    pose proof (zcnt_nonneg m (slog (nth p (procs g) dps))).
+    pose proof (zcnt_nonneg m (pk (ftr (nth (2 * p + 1) (qthr g) dqt)))).
+    pose proof (zcnt_nonneg m (pk (buf (nth p (procs g) dps)))). lia. }
+  split; [exact Z0|]. rewrite F2, zcnt_app in Z0.
+  pose proof (zcnt_nonneg m (getlog g)). pose proof (zcnt_nonneg m (pipe g)). lia.
+Qed.
+
+(* a feeder never ends: it is never finished and never stands at an exit *)
+Theorem feeder_never_ends : forall M g t, QInv M g -> In t (qthr g) -> qfeeder t = true ->
+    qfin t = false /\ qexited qcode t = false.
+Proof.
+  intros M g t HI Ht Hf. destruct (q_li M g HI t Ht) as [_ H]. rewrite Hf in H.
+  destruct H as (Hfin & Hc & _ & L). split; [exact Hfin|].
+  unfold qexited. rewrite Hfin, Hc. cbn [negb andb qcode].
+  destruct (qpc t) as [|pc]; [reflexivity|].
+  do 15 (destruct pc as [|pc]; [reflexivity|]). cbn [qli_pc] in L. contradiction.
+Qed.
+
+(* a feeder drops only a message that cannot be serialised *)
+Theorem feeder_drops_only_unpicklable : forall M g t, QInv M g -> In t (qthr g) ->
     qfeeder t = true -> qpc t = 14%nat -> picklable (r2 (qrg t)) = false.
 Proof.
   intros M g t HI Ht Hf Hp. destruct (q_li M g HI t Ht) as [_ H]. rewrite Hf in H.
